@@ -77,6 +77,7 @@ type Env struct {
 	epoch         int
 	traceDeclared map[string]bool
 	pending       sync.WaitGroup
+	iterOrd       int
 	writeLog      map[string][]string
 	allocLog      map[string]bool
 }
